@@ -188,8 +188,8 @@ where
             // reduction rules
             match sem {
                 Sem::Bdd => {
-                    if sig[0] == sig[1] {
-                        return Err(format!("BDD node {} at level {lno} has equal children", e.node_id()));
+                    if sig.iter().all(|c| *c == sig[0]) {
+                        return Err(format!("node {} at level {lno} has all children equal (redundant test)", e.node_id()));
                     }
                 }
                 Sem::Bcdd => {
